@@ -107,8 +107,10 @@ Definition mem_nat (n : nat) (l : list nat) : bool := existsb (Nat.eqb n) l.
 Definition point_ok (names : list name) (o : seen) : bool :=
   forallb (fun n =>
     let ps := map snd (filter (of_name n) (s_pos o)) in
-    (* at most one goroutine per name is at the issuer *)
+    (* at most one goroutine per name is at the issuer, and none is blocked anywhere else than in
+       the three waiting selects (e.g. on the storage lock behind another worker) *)
     (count (fun p => match p with AtIssue => true | _ => false end) ps <=? 1)%nat &&
+    negb (existsb (fun p => match p with Running => true | _ => false end) ps) &&
     (* a goroutine waits only on a channel that is still registered ... *)
     (negb (existsb (fun p => match p with WaitLoad => true | _ => false end) ps) || mem_nat n (s_lmap o)) &&
     (negb (existsb (fun p => match p with WaitObtain | WaitRenew => true | _ => false end) ps) || mem_nat n (s_omap o)) &&
@@ -132,25 +134,33 @@ Definition label_is_bad (l : mlabel) : bool :=
   | _ => false
   end.
 
-(** over the whole run *)
-Fixpoint run_ok (sc : scen) (names : list name) (bad_before : bool) (ms : list mstep) : bool :=
+(** over the whole run; [arrived] = the handshake goroutines so far (not the background ones),
+    [waited] = those that have been seen waiting *)
+Fixpoint run_ok (sc : scen) (names : list name) (bad_before : bool) (arrived waited : list tid) (ms : list mstep) : bool :=
   match ms with
   | [] => true
   | m :: r =>
       let o := m_seen m in
       let bad := bad_before || label_is_bad (m_label m) in
+      let arrived' := match m_label m with MArrive t _ => t :: arrived | _ => arrived end in
+      let waited' := map (fun x => fst (fst x)) (filter (fun x => is_wait (snd x)) (s_pos o)) ++ waited in
       point_ok names o &&
+      (* the others wait for the worker and then use what it left: a goroutine that has waited
+         never goes to storage or to the issuer itself afterwards (it re-enters with loading off) *)
+      forallb (fun x => negb (mem_nat (fst (fst x)) waited) ||
+                        match snd x with AtLoad | AtIssue => false | _ => true end) (s_pos o) &&
       (* while an unexpired certificate is being renewed and nothing has been denied or failed:
-         nobody waits, everybody is answered with a certificate *)
+         every handshake for the name has been answered with a certificate by the time things come
+         to rest — it neither waits nor is it held up by any policy / storage / issuer call *)
       (negb (sc_serve_current sc) || bad ||
-       forallb (fun x => negb (is_wait (snd x)) &&
-                         match snd x with DoneErr | DoneEmpty => false | _ => true end)
+       forallb (fun x => negb (mem_nat (fst (fst x)) arrived') ||
+                         match snd x with DoneCert _ => true | _ => false end)
                (filter (of_name (sc_name sc)) (s_pos o))) &&
       (* an expired certificate is not served unless a renewal attempt has failed / been denied *)
       (negb (sc_expired sc) || bad ||
        forallb (fun x => match snd x with DoneCert g => negb (Nat.eqb g (sc_old_gen sc)) | _ => true end)
                (filter (of_name (sc_name sc)) (s_pos o))) &&
-      run_ok sc names bad r
+      run_ok sc names bad arrived' waited' r
   end.
 
 (** at the end: everybody finished, both maps empty *)
@@ -162,7 +172,7 @@ Definition end_ok (ms : list mstep) : bool :=
   end.
 
 Definition spec_ok (sc : scen) (names : list name) (complete : bool) (ms : list mstep) : bool :=
-  run_ok sc names false ms && (negb complete || end_ok ms).
+  run_ok sc names false [] [] ms && (negb complete || end_ok ms).
 
 (** ** wire decoding *)
 Definition get_cls : dec cls :=
